@@ -35,9 +35,10 @@ class HarnessError(Exception):
 
 class Res(object):
     """Result of one case: violations [(key, message)], outcome token, non-trivial?, implementation calls."""
-    __slots__ = ("v", "o", "nt", "tr", "x")
+    __slots__ = ("v", "o", "nt", "tr", "x", "s")
 
-    def __init__(self, v=None, o="ok", nt=True, tr=1, x=None):
+    def __init__(self, v=None, o="ok", nt=True, tr=1, x=None, s=None):
+        self.s = s            # optional: an actual explored execution (schedule, history, ...) to show in the evidence samples
         self.v = v or []
         self.o = o
         self.nt = nt
@@ -111,6 +112,7 @@ def _run_shard(args):
     clause, cases = _SHARD_STATE[cname]
     evals = trans = nt = 0
     sums = {}
+    shown = []
     outcomes = {}
     viols = []
     done_all = True
@@ -136,6 +138,8 @@ def _run_shard(args):
         if r.x:
             for kx, vx in r.x.items():
                 sums[kx] = sums.get(kx, 0) + vx
+        if r.s is not None and len(shown) < 1:
+            shown.append(r.s)
         t = _tok(r.o)
         outcomes[t] = outcomes.get(t, 0) + 1
         if r.v and len(viols) < MAX_VIOL_PER_SHARD * 50:
@@ -153,7 +157,7 @@ def _run_shard(args):
         keycount[v["key"]] = keycount.get(v["key"], 0) + 1
     if len(outcomes) > 20000:
         outcomes = dict(list(outcomes.items())[:20000])
-    return evals, trans, nt, outcomes, [x for vs in perkey.values() for x in vs], done_all, nviolcases, keycount, sums
+    return evals, trans, nt, outcomes, [x for vs in perkey.values() for x in vs], done_all, nviolcases, keycount, sums, shown
 
 
 def run_case_clause(clause, tier, seed, jobs=NPROC):
@@ -181,7 +185,9 @@ def run_case_clause(clause, tier, seed, jobs=NPROC):
     keycount = {}
     nviolcases = 0
     sums = {}
-    for evals, trans, nt, outcomes, viols, done_all, nvc, kc, sm in results:
+    shown_all = []
+    for evals, trans, nt, outcomes, viols, done_all, nvc, kc, sm, shown in results:
+        shown_all += shown
         for kx, vx in sm.items():
             sums[kx] = sums.get(kx, 0) + vx
         cr.evaluations += evals
@@ -205,7 +211,7 @@ def run_case_clause(clause, tier, seed, jobs=NPROC):
     cr.states = cr.evaluations           # cases are generated distinct (product spaces / deduplicated lists)
     cr.executions = cr.transitions
     step = max(1, len(cases) // 3)
-    cr.samples = [cases[i] for i in range(0, len(cases), step)][:3]
+    cr.samples = shown_all[:2] + [cases[i] for i in range(0, len(cases), step)][:2]
     cr.wall = time.time() - t0
     del _SHARD_STATE[clause.name]
     return cr
